@@ -88,6 +88,7 @@ switches! {
     dict_in_nested_block,   // dict literal bound inside a nested block (HashMap import is only detected at function top level)
     list_builtins,          // sum/min/max/sorted over List[int]
     recursion,
+    shadow_param_mut,       // `mut p = ..` in a nested block shadowing a parameter p (the parameter becomes `&mut` in the emitted signature)
 }
 
 impl Default for Switches {
